@@ -551,6 +551,13 @@ func (v *levelJSONValue) UnmarshalJSON(data []byte) error {
 			if floatValue, err = strconv.ParseFloat(string(data), 64); err != nil {
 				return err
 			}
+			// int(x) in python has no upper bound; a value that does not fit an int64
+			// cannot be a level here. Converting it anyway is implementation-defined
+			// (the most negative int64 on amd64, the most positive on arm64), so it is
+			// refused. The comparison is false for NaN as well.
+			if !(floatValue >= -9223372036854775808.0 && floatValue < 9223372036854775808.0) {
+				return fmt.Errorf("power level %s is out of range", data)
+			}
 			int64Value = int64(floatValue)
 		} else {
 			// If we managed to get a string, try parsing the string as an int.
